@@ -69,10 +69,18 @@ func checkCertTableRanges(table []byte) error {
 	if err != nil {
 		return err
 	}
+	total := uint64(0)
 	for i, entry := range entries {
 		if uint64(entry.Offset)+uint64(entry.Length) > uint64(len(table)) {
 			return fmt.Errorf("cert table entry %d specifies a byte range outside the certificate data block (size %d): offset=%d, length=%d",
 				i, len(table), entry.Offset, entry.Length)
+		}
+		// The parser copies every entry's range: entries of a well-formed table do not overlap, so
+		// together they cannot be larger than the table.
+		total += uint64(entry.Length)
+		if total > uint64(len(table)) {
+			return fmt.Errorf("cert table entries up to %d cover %d bytes of a certificate data block of size %d: entries overlap",
+				i, total, len(table))
 		}
 	}
 	return nil
